@@ -1,9 +1,9 @@
 #!/usr/bin/env python3
 """Confirm a seeded change and run checks against it.
 usage: try_seed.py SRC_DIR DEMO_HOST_FILE "C06 C13 .." [--keep NAME]
-  SRC_DIR holds patch.diff + demo.rs (+ notes.md).  Steps, all in a scratch worktree-free way on /repo itself:
+  SRC_DIR holds patch.diff + demo.rs (+ notes.md).  Steps, all on a scratch copy of /repo's working tree (removed afterwards):
    1. clean tree: append demo -> must PASS;  2. apply patch: existing 32 tests must pass, demo must FAIL;
-   3. run the given checks on the patched tree;  4. restore /repo (git checkout).
+   3. run the given checks on the patched tree;  4. remove the copy.
   With --keep NAME the seed is stored as /verif/seeded/NAME/ with meta.json."""
 import json, os, shutil, subprocess, sys, time
 src, host, ids = sys.argv[1], sys.argv[2], sys.argv[3].split()
@@ -11,7 +11,13 @@ if host == 'auto':
     first = open(os.path.join(src, 'notes.md')).readline()
     host = first.split('host:', 1)[1].strip().strip('`')
 keep = sys.argv[sys.argv.index('--keep') + 1] if '--keep' in sys.argv else None
-R = '/repo'
+# work on a scratch copy of /repo's working tree (so /repo itself is never touched and background runs are not disturbed)
+SCR = os.environ.get('VERIF_SCRATCH', '/var/tmp') + f'/zeep-tryseed.{os.getpid()}'
+R = SCR + '/repo'
+os.makedirs(SCR, exist_ok=True)
+subprocess.run(f"rsync -a --exclude target --exclude .git/worktrees /repo/ {R}/", shell=True, check=True)
+os.environ['CARGO_TARGET_DIR'] = os.environ.get('TRY_SEED_TARGET', '/var/tmp/zeep-tryseed-target')
+os.environ['VERIF_REPO'] = R
 def sh(cmd, **kw):
     return subprocess.run(cmd, shell=True, capture_output=True, text=True, **kw)
 def tests():
@@ -48,7 +54,7 @@ try:
         lines = [l for l in o.stdout.splitlines() if not l.startswith('WARNING') and not l.startswith('KNOWN-FINDING')]
         res['checks'][i] = {'rc': o.returncode, 'wall_s': round(time.time() - t0, 1), 'output': lines[:8]}
 finally:
-    sh(f'git -C {R} checkout -- .')
+    shutil.rmtree(SCR, ignore_errors=True)
 print(json.dumps(res, indent=1))
 if keep:
     d = f'/verif/seeded/{keep}'
@@ -60,5 +66,5 @@ if keep:
             ('demo_passes_on_clean_tree', 'patch_applies', 'existing_tests_pass_with_patch', 'demo_fails_with_patch')},
             'checks_run_on_patched_tree': res['checks'],
             'what_i_ran': f'tools/try_seed.py {src} {host} "{" ".join(ids)}" (clean tree: demo appended to {host} and run with cargo test -p zeep-lib seeded_demo; '
-                          f'patched tree: cargo test --workspace (32 tests), the demo again, then ./check for each id; /repo restored with git checkout)'}
+                          f'patched tree: cargo test --workspace (32 tests), the demo again, then ./check for each id; scratch copy of /repo removed)'}
     json.dump(meta, open(os.path.join(d, 'meta.json'), 'w'), indent=1)
